@@ -47,6 +47,11 @@ def while_bounds(test):
                 return True
             if mentions_len(r, W) and l == win and ((op == ">" and not neg) or (op == "<=" and neg)):
                 return True
+            # the same bound as a credit: window - len(W) > 0  /  >= 1  (and the negations)
+            if isinstance(l, tuple) and l[:2] == ("binop", "Sub") and l[2] == win and mentions_len(l[3], W) and is_const(r):
+                if (op == ">" and r[1] == 0 and not neg) or (op == ">=" and r[1] == 1 and not neg) or (op == "<=" and r[1] == 0 and neg) \
+                        or (op == "<" and r[1] == 1 and neg) or (op == "!=" and r[1] == 0 and not neg and False):
+                    return True
     return False
 
 
